@@ -2,12 +2,13 @@ SPECIFICATION MCSpec
 CONSTANTS
   InstOf <- Ident
   W = 64
-  Widths = {1, 3, 5, 7, 13, 31, 33}
+  Widths = {3, 5, 13, 33}
   NThreads = {3}
   Menu = {"field"}
   AllValues = FALSE
   Rots = {0}
   PatSet = {"alt"}
+  Boundaries = {1}
   NearFields = 0
   EFN = {}
   EFMaxThreads = 3
